@@ -67,6 +67,7 @@ def make_keymap(name):
         'md5': lambda: hashmap(algorithm='md5'),
         'md5nf': lambda: hashmap(flat=False, algorithm='md5'),
         'strtyped': lambda: stringmap(typed=True),
+        'md5typed': lambda: hashmap(typed=True, algorithm='md5'),
         'chain': lambda: stringmap() + hashmap(algorithm='md5'),            # composed keymaps: encode with the first, then the second
         'chainnf': lambda: picklemap(flat=False, serializer='dill') + hashmap(flat=False, algorithm='md5'),
         'default': lambda: None,
